@@ -115,3 +115,168 @@ def jnp_take(I, v, idx, axis=None):
 def install(I):
     I.ext["jax.vmap"] = jax_vmap
     I.ext["jax.numpy.take"] = jnp_take
+    I.ext["jax.lax.scan"] = lax_scan
+    I.ext["jax.numpy.concatenate"] = jnp_concatenate
+    I.newaxis_cls = NewAxis
+
+
+# ====================================================================================== lax.scan
+class ScanCall:
+    """one call  lax.scan(f, init, xs, length): the fold is represented by per-leaf functions of the step index
+    (`carry_at(i)`), with the defining equations  carry_at(0) = init,  (carry_at(i+1), ys[i]) = f(carry_at(i), xs[i])
+    available at any index (A4).  Properties of all iterations are obtained through `prove_invariant` (induction)."""
+
+    def __init__(self, I, f, init, xs, n, tag):
+        self.I, self.f, self.init, self.xs, self.n, self.tag = I, f, init, xs, n, tag
+        self.leaf_fns = []
+        self.invariants = []
+        self._mk_leaf_fns(init)
+        self.unfolded = set()
+        c0 = self.carry_at(z3.IntVal(0))
+        e = I.veq(c0, init, obs=False)
+        I.ctx.assume(e if not isinstance(e, bool) else z3.BoolVal(e))
+
+    def _mk_leaf_fns(self, init):
+        c = self.I.ctx
+        k = [0]
+
+        def mk(leaf):
+            k[0] += 1
+            nm = c.fresh_name(f"scan_{self.tag}_leaf{k[0]}")
+            if isinstance(leaf, (SReal, float)):
+                return ("real", c.fn(nm, Z, z3.RealSort()))
+            if isinstance(leaf, (SInt, int)) and not isinstance(leaf, bool):
+                return ("int", c.fn(nm, Z, Z))
+            if isinstance(leaf, (SBool, bool)):
+                return ("bool", c.fn(nm, Z, z3.BoolSort()))
+            if isinstance(leaf, UVal):
+                return ("u:" + str(leaf.cls), c.fn(nm, Z, U))
+            raise Unsupported(f"scan carry leaf {type(leaf).__name__}")
+        self.shape = externals.map_leaves(self.I, mk, init)
+
+    def _inst(self, make):
+        def rec(s):
+            if isinstance(s, tuple) and len(s) == 2 and isinstance(s[0], str) and not isinstance(s[1], (tuple, list, dict, str)):
+                return make(*s)
+            if isinstance(s, tuple):
+                return tuple(rec(x) for x in s)
+            if isinstance(s, list):
+                return [rec(x) for x in s]
+            if isinstance(s, dict):
+                return {k: rec(v) for k, v in s.items()}
+            if s is None:
+                return None
+            if isinstance(s, Obj):
+                return Obj(s.cls, {k: rec(v) for k, v in s.fields.items()})
+            raise Unsupported("scan carry structure")
+        return rec(self.shape)
+
+    @staticmethod
+    def _wrap(kind, t):
+        if kind == "real":
+            return SReal(t)
+        if kind == "int":
+            return SInt(t, False)
+        if kind == "bool":
+            return SBool(t, False)
+        cls = kind[2:]
+        return UVal(t, None if cls == "None" else cls)
+
+    def carry_at(self, i):
+        return self._inst(lambda kind, fn: self._wrap(kind, fn(i)))
+
+    def arbitrary_carry(self):
+        c = self.I.ctx
+        sorts = {"real": z3.RealSort(), "int": Z, "bool": z3.BoolSort()}
+        return self._inst(lambda kind, fn: self._wrap(kind, c.const("carry_any", sorts.get(kind, U))))
+
+    def x_at(self, i):
+        if self.xs is None:
+            return None
+        return index0(self.I, self.xs, i)
+
+    def step(self, carry, i):
+        r = self.I.call(self.f, [carry, self.x_at(i)], {})
+        c2, y = self.I.unpack(r, 2)
+        return c2, y
+
+    def unfold(self, i):
+        """defining equation at index i: carry_at(i+1) == f(carry_at(i), xs[i]).carry ; returns ys[i]"""
+        from pyvc import values as _v
+        key = i.get_id()
+        if not hasattr(self, "_ys"):
+            self._ys = {}
+        hit = self._ys.get(key)
+        if hit is not None and hit[0].eq(i) and _v.scope_valid(hit[2]):
+            return hit[1]
+        for inv in self.invariants:
+            self.I.ctx.assume(z3.Implies(z3.And(i >= 0, i <= self.n), inv(i, self.carry_at(i))))
+        c2, y = self.step(self.carry_at(i), i)
+        e = self.I.veq(self.carry_at(i + 1), c2, obs=False)
+        self.I.ctx.assume(z3.Implies(z3.And(i >= 0, i < self.n), e if not isinstance(e, bool) else z3.BoolVal(e)))
+        self._ys[key] = (i, y, tuple(_v.SCOPES))
+        return y
+
+    def use_invariants(self, i):
+        for inv in self.invariants:
+            self.I.ctx.assume(z3.Implies(z3.And(i >= 0, i <= self.n), inv(i, self.carry_at(i))))
+
+    def prove_invariant(self, E, name, inv):
+        """induction: inv(0, init) and inv(i, c) & 0 <= i < n  =>  inv(i+1, f(c, xs[i]).carry), c arbitrary"""
+        I, ctx = self.I, self.I.ctx
+        E.prove(name + ".base", inv(z3.IntVal(0), self.init))
+        holder = {}
+
+        def body():
+            i = ctx.const("iscan", Z)
+            c = self.arbitrary_carry()
+            ctx.assume(z3.And(i >= 0, i < self.n))
+            for old in self.invariants:
+                ctx.assume(old(i, c))
+            ctx.assume(inv(i, c))
+            c2, _ = self.step(c, i)
+            ob = ctx.oblige(name + ".step", inv(i + 1, c2))
+            holder.setdefault("obs", []).append(ob)
+            return ob.status == "proved"
+        # the obligations recorded inside the scope stay in ctx.obligations
+        ok = I.forall_paths(body)
+        if ok:
+            self.invariants.append(inv)
+            ctx.assume(z3.Implies(self.n >= 0, inv(self.n, self.carry_at(self.n))))     # conclusion of the induction at i = n
+        return ok
+
+
+def lax_scan(I, f, init, xs=None, length=None, **kw):
+    externals._used("A4: lax.scan(f, init, xs, length) is the left fold of f over the leading axis with stacked outputs")
+    n = None
+    if xs is not None:
+        n = batch_len(I, 0, xs)
+    if n is None:
+        if length is None:
+            raise PyRaise("ValueError", ("scan needs xs or length",))
+        n = zint(length)
+    elif length is not None:
+        I.ctx.assume(n == zint(length))
+    if not hasattr(I, "scans"):
+        I.scans = []
+    sc = ScanCall(I, f, init, xs, n, str(len(I.scans)))
+    I.scans.append(sc)
+    ys = Stacked(n, lambda i: sc.unfold(i), tag="scan-ys")
+    sc.ys = ys
+    final = sc.carry_at(n)
+    return (final, ys)
+
+
+def jnp_concatenate(I, parts, axis=0):
+    externals._used("A4: jnp.concatenate([a[None], xs])[0] = a and [i+1] = xs[i]")
+    parts = I.iterate(parts)
+    if len(parts) == 2 and isinstance(parts[0], NewAxis) and isinstance(parts[1], Stacked):
+        a, xs = parts[0].v, parts[1]
+        n = xs.n
+        return Stacked(n + 1, lambda i: externals.ite(I, i == 0, a, xs.at(i - 1)), tag="prepend")
+    raise Unsupported("jnp.concatenate shape")
+
+
+class NewAxis:
+    def __init__(self, v):
+        self.v = v
